@@ -270,9 +270,13 @@ func load(t *p09.Tree, dry bool, seq int) map[string]string {
 			}
 			e.Dry = true
 		}
-		// the listing with one of the sorters in one of the formats, in rotation
-		sorter := p09.Sorters[seq%3]
-		format := []string{"text", "json"}[(seq/3)%2]
+		// the listing with one of the sorters in one of the formats: every second load, in rotation
+		sorter := p09.Sorters[(seq/2)%3]
+		format := []string{"text", "json"}[(seq/6)%2]
+		switch {
+		case seq%2 != 0:
+			sorter = ""
+		}
 		switch sorter {
 		case "default":
 			e.TaskSorter = tsort.AlphaNumericWithRootTasksFirst
@@ -281,15 +285,20 @@ func load(t *p09.Tree, dry bool, seq int) map[string]string {
 		case "none":
 			e.TaskSorter = tsort.NoSort
 		}
-		so.Reset()
-		se.Reset()
-		_, lerr := e.ListTasks(task.ListOptions{ListAllTasks: true, FormatTaskListAsJSON: format == "json", NoStatus: true})
-		kind := "list-" + sorter + "-" + format
-		observed[kind] = true
-		c.add(kind, "err=%v\n%s%s", lerr, so.String(), se.String())
+		if sorter != "" {
+			so.Reset()
+			se.Reset()
+			_, lerr := e.ListTasks(task.ListOptions{ListAllTasks: true, FormatTaskListAsJSON: format == "json", NoStatus: true})
+			kind := "list-" + sorter + "-" + format
+			observed[kind] = true
+			c.add(kind, "err=%v\n%s%s", lerr, so.String(), se.String())
+		}
 	}
 	out := map[string]string{}
 	for k, b := range c.b {
+		if err != nil && k != "setup-error" {
+			continue // the load ended in Setup: its outcome is the error class, nothing else was observed
+		}
 		if k == "dry-run" && !dry {
 			continue // not observed in this load
 		}
@@ -356,6 +365,9 @@ const watchdog = 60 * time.Second
 // loadOrdered loads the tree while the include readers of one level complete in
 // exactly the order perm. A fired watchdog is reported as inconclusive.
 func loadOrdered(t *p09.Tree, perm []string) (comps map[string]string, linked []string, parked int, inconc string) {
+	if t.Fault != "" {
+		return loadOrderedPartial(t, perm)
+	}
 	st := &hookState{release: map[string]chan struct{}{}, parked: make(chan string, len(perm)), linked: make(chan string, len(perm)+1)}
 	for _, ns := range perm {
 		st.release[ns] = make(chan struct{})
@@ -409,6 +421,72 @@ func loadOrdered(t *p09.Tree, perm []string) (comps map[string]string, linked []
 		return nil, linked, parked, "watchdog: load did not finish"
 	}
 	return comps, linked, parked, ""
+}
+
+// grace is a scheduling strategy, never a verdict: in a fault-bearing tree a
+// sibling reader may end with an error and never arrive at include.fetched, so
+// the driver cannot wait for a count. After a quiet period the siblings that
+// did arrive are released in the order of perm; the outcome is recorded, and
+// linked reports only the part of the order that could be enforced.
+const grace = 250 * time.Millisecond
+
+func loadOrderedPartial(t *p09.Tree, perm []string) (comps map[string]string, linked []string, parked int, inconc string) {
+	st := &hookState{release: map[string]chan struct{}{}, parked: make(chan string, len(perm)), linked: make(chan string, len(perm)+1)}
+	for _, ns := range perm {
+		st.release[ns] = make(chan struct{})
+	}
+	cur.Store(st)
+	defer cur.Store(nil)
+	done := make(chan map[string]string, 1)
+	go func() { done <- load(t, true, int(loadSeq.Add(1))) }()
+	arrived := map[string]bool{}
+	released := map[string]bool{}
+	release := func(ns string) {
+		if !released[ns] {
+			released[ns] = true
+			close(st.release[ns])
+		}
+	}
+	defer func() {
+		for _, ns := range perm {
+			release(ns)
+		}
+	}()
+	wd := time.NewTimer(watchdog)
+	defer wd.Stop()
+wait:
+	for parked < len(perm) {
+		select {
+		case ns := <-st.parked:
+			arrived[ns] = true
+			parked++
+		case comps = <-done:
+			return comps, perm, parked, ""
+		case <-time.After(grace):
+			break wait
+		case <-wd.C:
+			break wait
+		}
+	}
+	for _, ns := range perm {
+		if !arrived[ns] {
+			release(ns) // passes through whenever it arrives
+			continue
+		}
+		release(ns)
+		select {
+		case <-st.linked:
+		case comps = <-done:
+			return comps, perm, parked, ""
+		case <-time.After(grace):
+		}
+	}
+	select {
+	case comps = <-done:
+	case <-wd.C:
+		return nil, perm, parked, "watchdog: load did not finish"
+	}
+	return comps, perm, parked, ""
 }
 
 // progress records how many loads of the tree completed, for the driver to read if this process never returns.
